@@ -1,4 +1,4 @@
-#!/usr/bin/env python3
+#!/venv/bin/python
 """Runs every quick check for several seeds (evidence to a scratch dir) and prints, per required class,
 the minimum count observed - required classes must stay far from zero for every seed.
 usage: tools/class_minima.py seed [seed ...]"""
